@@ -831,8 +831,8 @@ where
                 if protocol_version != self.protocol_version {
                     let association_rj = AssociationRJ {
                         result: AssociationRJResult::Permanent,
-                        source: AssociationRJSource::ServiceUser(
-                            AssociationRJServiceUserReason::NoReasonGiven,
+                        source: AssociationRJSource::ServiceProviderASCE(
+                            crate::pdu::AssociationRJServiceProviderASCEReason::ProtocolVersionNotSupported,
                         ),
                     };
                     let pdu = Pdu::AssociationRJ(association_rj.clone());
